@@ -447,6 +447,9 @@ func (e *bEnv) FetchSourcePackage(ctx context.Context, sourceType string, u *url
 				os.WriteFile(filepath.Join(targetDir, "zero"), []byte(fmt.Sprintf("content-%d zero", f.Content)), 0644)
 				os.Chmod(filepath.Join(targetDir, "zero"), 0)
 				os.Mkdir(filepath.Join(targetDir, "m", "hollow"), 0755) // an empty directory that is not at the package root
+				// names that look like editor or operating-system companions are ordinary package files
+				os.WriteFile(filepath.Join(targetDir, "._main"), []byte(fmt.Sprintf("content-%d companion", f.Content)), 0644)
+				os.WriteFile(filepath.Join(targetDir, "m", "._f"), []byte(fmt.Sprintf("content-%d companion of f", f.Content)), 0644)
 				os.Mkdir(filepath.Join(targetDir, "zdir"), 0755)
 				os.Chmod(filepath.Join(targetDir, "zdir"), 0)
 				// a package that keeps what the built-in rules exclude, through its own rule file
